@@ -314,7 +314,11 @@ fn run_batch(prop: &str, tier: &str, seed: u64, runs: u64, workers: u64) -> Resu
                 Some(c) => {
                     died.push(c);
                     skip.push(c);
-                    next.push(id);
+                    // C07 owns process deaths and hangs: the first one is the violation, there is
+                    // no point in completing this worker's share. Other properties skip the run.
+                    if prop != "C07" {
+                        next.push(id);
+                    }
                 }
                 None => return Err(format!("worker {} failed ({:?}) and the failing run could not be identified", id, status)),
             }
@@ -327,7 +331,10 @@ fn run_batch(prop: &str, tier: &str, seed: u64, runs: u64, workers: u64) -> Resu
     let mut found: Option<Found> = None;
     let mut all_hashes: Vec<u64> = Vec::new();
     for id in 0..workers {
-        let v = results[id as usize].take().unwrap();
+        let v = match results[id as usize].take() {
+            Some(v) => v,
+            None => continue, // a C07 worker that died: its run is reported through `died`
+        };
         let s = &v["stats"];
         let mut s_nomax = s.clone();
         let maxes = s_nomax.as_object_mut().unwrap().remove("maxes").unwrap_or(json!({}));
@@ -432,14 +439,15 @@ fn write_evidence(prop: &str, tier: &str, seed: u64, runs: u64, wall: f64, b: &B
     }
     perturb.insert("buggify_flips".into(), names(&s["buggify_flips"], &raqote::verif::BUGGIFY_SITE_NAMES));
     let evaluations = s["runs"].as_u64().unwrap_or(0);
+    let num = |v: &Value| json!(v.as_u64().unwrap_or(0));
     let mut coverage = json!({
         "evaluations": evaluations,
         "distinct_nontrivial": b.distinct_nontrivial,
-        "nontrivial_runs": s["nontrivial"],
+        "nontrivial_runs": num(&s["nontrivial"]),
         "rule": rule_text(prop),
         "samples": s["samples"],
         "planned_runs": runs,
-        "ops": s["ops"],
+        "ops": num(&s["ops"]),
         "runs_per_s": if wall > 0. { (evaluations as f64 / wall) as u64 } else { 0 },
         "seeds_per_hour": if wall > 0. { (evaluations as f64 / wall * 3600.) as u64 } else { 0 },
         "run_index_range": [0, runs],
@@ -669,6 +677,52 @@ pub fn cmd_replay(args: &[String]) -> i32 {
             return 2;
         }
     };
+    if !args.iter().any(|a| a == "--inner") {
+        // execute in a child process: a history may kill its process (stack overflow, abort) or
+        // hang in code that has no step hook - for C07 that is the violation being replayed
+        let exe = std::env::current_exe().unwrap();
+        let mut child = match std::process::Command::new(&exe).args(["replay", &path, "--inner"]).stdout(std::process::Stdio::piped()).spawn() {
+            Ok(c) => c,
+            Err(e) => {
+                eprintln!("harness error: {}", e);
+                return 2;
+            }
+        };
+        let t0 = Instant::now();
+        let status = loop {
+            match child.try_wait() {
+                Ok(Some(s)) => break Some(s),
+                Ok(None) => {
+                    if t0.elapsed().as_secs() > 90 {
+                        let _ = child.kill();
+                        let _ = child.wait();
+                        break None;
+                    }
+                    std::thread::sleep(std::time::Duration::from_millis(20));
+                }
+                Err(_) => break None,
+            }
+        };
+        let mut out = String::new();
+        if let Some(mut so) = child.stdout.take() {
+            use std::io::Read;
+            let _ = so.read_to_string(&mut out);
+        }
+        print!("{}", out);
+        return match status.and_then(|s| s.code()) {
+            Some(c) if c == 0 || c == 1 || c == 2 => c,
+            other => {
+                if r.property == "C07" {
+                    println!("sim: replay of {}: the process executing the history {}", path, match other { None => "died on a signal or made no progress for 90 s".to_string(), Some(c) => format!("exited with status {}", c) });
+                    println!("VIOLATION property={} replay={}", r.property, path);
+                    1
+                } else {
+                    println!("NO-VIOLATION property={} replay={} (run abandoned: the process executing it died or hung; C07 owns that)", r.property, path);
+                    0
+                }
+            }
+        };
+    }
     let mut st = Stats::new();
     let out = props::run(&r.property, &r.history, &io_dir(), &mut st);
     match out {
@@ -791,4 +845,52 @@ pub fn cmd_selftest(args: &[String]) -> i32 {
             2
         }
     }
+}
+
+/// One short C10 history, meant to be executed under Miri (`cargo +nightly miri run`): the
+/// rasteriser keeps raw pointers into an arena that `reset()` frees, so a stale edge is
+/// undefined behaviour that need not change a pixel natively but that Miri reports.
+/// No file access, no libc calls. Prints one line; exit 0 unless the oracle itself fails.
+pub fn cmd_miri_c10(args: &[String]) -> i32 {
+    let seed: u64 = opt(args, "--seed").and_then(|s| s.parse().ok()).unwrap_or(DEFAULT_SEED);
+    let index: u64 = opt(args, "--index").and_then(|s| s.parse().ok()).unwrap_or(0);
+    let max_steps: usize = opt(args, "--max-steps").and_then(|s| s.parse().ok()).unwrap_or(24);
+    let h = match opt(args, "--file") {
+        Some(path) => {
+            let text = std::fs::read_to_string(&path).expect("replay file");
+            let r: Replay = serde_json::from_str(&text).expect("replay file parses");
+            r.history
+        }
+        None => miri_c10_history(seed, index, max_steps),
+    };
+    let mut st = Stats::new();
+    let out = crate::pairs::run_c10(&h, &mut st);
+    match out {
+        Outcome::Violation(v) => {
+            println!("MIRI-C10 index {} steps {}: VIOLATION {} at step {}: {}", index, h.steps.len(), v.oracle, v.step, v.detail);
+            1
+        }
+        other => {
+            println!("MIRI-C10 index {} steps {} ops {}: {}", index, h.steps.len(), st.ops, match other { Outcome::Ok => "ok".to_string(), Outcome::Aborted(w) => format!("abandoned: {}", w), _ => String::new() });
+            0
+        }
+    }
+}
+
+fn miri_c10_history(seed: u64, index: u64, max_steps: usize) -> History {
+    let rs = run_seed(seed ^ 0x6d697269, index);
+    let mut rng = Rng::new(rs);
+    let mut h = crate::pairs::gen_c10(&mut rng, false);
+    // keep it short: Miri is about three orders of magnitude slower than native code
+    h.steps.truncate(max_steps);
+    minimise::repair(&h)
+}
+
+pub fn cmd_gen_miri_c10(args: &[String]) -> i32 {
+    let seed: u64 = opt(args, "--seed").and_then(|s| s.parse().ok()).unwrap_or(DEFAULT_SEED);
+    let index: u64 = opt(args, "--index").and_then(|s| s.parse().ok()).unwrap_or(0);
+    let h = miri_c10_history(seed, index, 24);
+    let r = Replay { format: "raqote-sim-replay 1".into(), property: "C10".into(), oracle: "c10.miri-undefined-behaviour".into(), batch_seed: seed, run_index: index, run_seed: run_seed(seed ^ 0x6d697269, index), detail: "reported by Miri; replay with ./check replay <file> (runs under cargo +nightly miri)".into(), history: h };
+    print!("{}", replay_to_text(&r));
+    0
 }
